@@ -16,6 +16,10 @@ RULE = ("unparse: conventional command trees (own generator: options with short/
         "occurrence (--n=v, --n v.., -ov, -o=v, -o v.., clusters -abc[ovalue]); the expected matches (raw occurrence "
         "groups split only at the declared delimiter, indices by the documented rule, subcommand chain) are computed "
         "from the invocation, not from argv, and travel with the case in a checksum-guarded x-expect item.  "
+        "unparse_tails: flat commands with one of the fourth-pass positional shapes (last(true) behind a single / a multiple "
+        "positional, trailing_var_arg, single / multi-valued positional with hyphen or negative-number values, low-index "
+        "multiple, allow_missing_positional) x lines of the matching tail grammar (values after --, raw tails with known flags / "
+        "-- / flag-looking tokens, look-ahead runs followed by nothing or a flag), same expectation mechanism.  "
         "random/adversarial: the shared generator (all features) for the index-discipline and provenance oracles.  "
         "A case is non-trivial when the parse succeeds and at least one argument has a command-line value.")
 TRUSTED = [
@@ -88,8 +92,9 @@ LEVEL_NOTE = ("Outside the lifted class (-- directly after an open multi-valued 
               "tokens) and the class of the children of a tree (their arguments include propagated globals) are still checked on "
               "the built command by computation.  The pending bound is for options; for multi-valued positionals it stays refuted "
               "(their run is counted when flushed: C02_flushed_in_range).  The python un-parser stream renders the conventional "
-              "grammar; the fourth-pass shapes are tied to the crate by the corpus lines of the Coq examples (expectations = the "
-              "pinned theorem statements) and by the shared generators' model/implementation comparison.  Trusted: Coq kernel, "
+              "grammar; the fourth-pass shapes are tied to the crate by the stream unparse_tails (flat commands, expectations computed "
+              "from the invocation), by the corpus lines of the Coq examples (expectations = the pinned theorem statements) and by the "
+              "shared generators' model/implementation comparison.  Trusted: Coq kernel, "
               "extraction, OCaml driver, Rust harness, generators.")
 
 VALS = [b"v", b"w", b"x1", b"1", b"0", b"zz", b"v=w", b"a.b", "é".encode(), b"3", b"=", b"e=", b"long-value", b"x y"]
@@ -464,6 +469,150 @@ def gen_unparse(rng, n, stats):
     return out[:n]
 
 
+# ----------------------------------------------------------------------------- the tails of a level (fourth pass)
+PLAIN = [b"A", b"B", b"x1", b"0", b"zz", b"a.b", "é".encode(), b"k=v", b"long-value", b"x y", b"a,b"]
+ANY = [b"-x", b"--", b"--opt", b"-v", b"--weird=1", b"plain", b"-", b"-5", b"--quiet", b"-qv", b"---", b"-=", b"3"]
+
+
+def gen_tail_case(rng, stats):
+    """One flat command and one line of the fourth-pass grammar (UnparseYTree.v: YTrail with a last(true) positional,
+    YTva, hyph_single items, YHyp, YLook for a low-index multiple / allow_missing_positional), with the expected groups and
+    indices computed from the invocation by the documented rule (an independent python reading of the grammar)."""
+    def arg(i, **kw):
+        a = {"id": i, "flags": set()}
+        a.update(kw)
+        return a
+    v = arg(b"v", short="v", action="count")
+    q = arg(b"q", short="q", long=b"quiet", action="settrue")
+    o = arg(b"o", long=b"opt", action="set")
+    c = {"name": b"p", "args": [v, q, o], "groups": [], "subs": [], "settings": [], "aliases": []}
+    exp = collections.OrderedDict()
+    toks = []
+    idx = [0]
+    nv = [0]
+
+    def flags(maxn=3):
+        for _ in range(rng.randrange(0, maxn + 1)):
+            k = rng.random()
+            if k < 0.4:
+                toks.append(b"-v")
+                idx[0] += 1
+                nv[0] += 1
+                exp.pop(b"v", None)
+                exp[b"v"] = {"occ": [[str(nv[0]).encode()]], "idx": [idx[0]]}
+            elif k < 0.7:
+                if b"q" in exp:
+                    continue
+                toks.append(pick(rng, [b"-q", b"--quiet"]))
+                idx[0] += 1
+                exp[b"q"] = {"occ": [[b"true"]], "idx": [idx[0]]}
+            else:
+                if b"o" in exp:
+                    continue
+                val = pick(rng, PLAIN)
+                idx[0] += 1
+                if rng.random() < 0.5:
+                    toks.extend([b"--opt", val])
+                else:
+                    toks.append(b"--opt=" + val)
+                idx[0] += 1
+                exp[b"o"] = {"occ": [[val]], "idx": [idx[0]]}
+
+    def give(a, vals):
+        e = exp.setdefault(a["id"], {"occ": [], "idx": []})
+        g = []
+        for x in vals:
+            idx[0] += 1
+            g.append(x)
+            e["idx"].append(idx[0])
+        e["occ"].append(g)
+
+    shape = pick(rng, ["last", "last-low", "tva", "hyph1", "hyphm", "low", "amp"])
+    stats["tail:" + shape] += 1
+    if shape in ("last", "last-low"):
+        first = arg(b"f", **({"num": (1, None), "action": "append"} if shape == "last-low" else {}))
+        rest = arg(b"r", num=(1, None), action="append", flags={"last"})
+        c["args"] += [first, rest]
+        flags()
+        if rng.random() < 0.7:
+            fv = [pick(rng, PLAIN) for _ in range(1 if shape == "last" else rng.randrange(1, 4))]
+            toks.extend(fv)
+            give(first, fv)
+            flags(2)
+        toks.append(b"--")
+        tail = [pick(rng, ANY + PLAIN) for _ in range(rng.randrange(1, 5))]
+        toks.extend(tail)
+        give(rest, tail)
+    elif shape == "tva":
+        cm = arg(b"c")
+        args = arg(b"a", num=(pick(rng, [0, 1]), None), flags={"tva"})
+        c["args"] += [cm, args]
+        flags()
+        toks.append(pick(rng, PLAIN))
+        give(cm, [toks[-1]])
+        flags(2)
+        tail = [pick(rng, PLAIN)] + [pick(rng, ANY + PLAIN) for _ in range(rng.randrange(0, 4))]
+        toks.extend(tail)
+        give(args, tail)
+    elif shape == "hyph1":
+        pat = arg(b"p", flags={"hyphen"})
+        num = arg(b"n", flags={"negnum"})
+        c["args"] += [pat, num]
+        flags(2)
+        # a value of [pat]: plain, an unknown long, a cluster with an unknown short (known ones may precede it)
+        t = pick(rng, [pick(rng, PLAIN), b"--weird", b"--weird=1", b"--op", b"-x", b"-vx", b"-Z9", b"-xv"])
+        toks.append(t)
+        give(pat, [t])
+        flags(2)
+        if rng.random() < 0.7:
+            t = pick(rng, [b"-5", b"-3.14", b"-0", b"-1e5", pick(rng, PLAIN)])
+            toks.append(t)
+            give(num, [t])
+            flags(2)
+    elif shape == "hyphm":
+        cm = arg(b"c")
+        args = arg(b"a", num=(1, None), flags={"hyphen"})
+        c["args"] += [cm, args]
+        flags()
+        toks.append(pick(rng, PLAIN))
+        give(cm, [toks[-1]])
+        flags(2)
+        tail = [pick(rng, [pick(rng, PLAIN), b"--weird", b"-x", b"-vx"])] + [pick(rng, ANY + PLAIN) for _ in range(rng.randrange(0, 4))]
+        toks.extend(tail)
+        give(args, tail)
+    elif shape == "low":
+        src = arg(b"s", num=(1, None), flags={"required"})
+        dst = arg(b"d", flags={"required"})
+        c["args"] += [src, dst]
+        flags()
+        init = [pick(rng, PLAIN) for _ in range(rng.randrange(1, 4))]
+        toks.extend(init)
+        give(src, init)
+        toks.append(pick(rng, PLAIN))
+        give(dst, [toks[-1]])
+        flags(2)
+    else:
+        first = arg(b"f")
+        second = arg(b"s", flags={"required"})
+        c["args"] += [first, second]
+        c["settings"] = ["allow_missing_positional"]
+        flags()
+        if rng.random() < 0.5:
+            toks.append(pick(rng, PLAIN))
+            give(first, [toks[-1]])
+        toks.append(pick(rng, PLAIN))
+        give(second, [toks[-1]])
+        flags(2)
+    argv = [b"p"] + toks
+    base = gen_cmd.cmd_sx(c)
+    body = base[:-1] + " (x-expect %s %s))" % (guard(base, argv), expect_sx([(exp, None)]))
+    return "(parse %s (argv%s))" % (body, "".join(" " + hexs(t) for t in argv))
+
+
+def gen_tails(rng, n, stats):
+    return [gen_tail_case(rng, stats) for _ in range(n)]
+
+
 def coq_example_cases():
     """The invocations of coq/theories/ParseProofs/UnparseExamples.v (pinned by C02_unparse_nonvacuous,
     C02_indices_nonvacuous, C02_unparse_tree_nonvacuous, C02_unparse_trail_nonvacuous) as un-parser cases: the expectations below are the values
@@ -764,9 +913,13 @@ def streams(tier, rng):
     adv = gen_cases(rng, 20000 if big else 2000, {"hyphen": 0.3, "flag_subs": 0.5, "low_index": 0.2, "terminators": 0.3,
                                                   "require_equals": 0.3, "last": 0.3, "tva": 0.25, "delims": 0.5},
                     p_mutate=0.3, safe_p=0.7)
+    tstats = collections.Counter()
+    tails = gen_tails(rng, 20000 if big else 2000, tstats)
     return [
         Stream("unparse", unp, oracle=oracle_unparse, area="parse", project=project, nontrivial=nontrivial,
                describe={"spellings": freeze(stats)}),
+        Stream("unparse_tails", tails, oracle=oracle_unparse, area="parse", project=project, nontrivial=nontrivial,
+               describe={"shapes": freeze(tstats)}),
         Stream("conventional", conv, oracle=oracle_generic, area="parse", project=project, nontrivial=nontrivial),
         Stream("random", rand, oracle=oracle_generic, area="parse", project=project, nontrivial=nontrivial),
         Stream("adversarial", adv, oracle=oracle_generic, area="parse", project=project, nontrivial=nontrivial),
